@@ -4,7 +4,7 @@
 From Coq Require Import NArith ZArith List String Bool Permutation.
 From V Require Import Base.UString Base.Json Model.SchemaTypes Model.PyBase Model.Schema Model.Serialize.
 From V Require Import Spec.JsonValue Proofs.C01Basics Proofs.C01Serialize.
-From V Require Import Proofs.C01Kinds Proofs.C01KindsAll Proofs.C01Object Proofs.C01Roundtrip Proofs.C01Parse Proofs.C01Bundle Proofs.C01LibInstance Gen.Tables.
+From V Require Import Proofs.C01Kinds Proofs.C01KindsAll Proofs.C01Object Proofs.C01Roundtrip Proofs.C01Parse Proofs.C01Bundle Proofs.C01Observed Proofs.C01LibInstance Gen.Tables.
 Import ListNotations.
 
 (* All serialization options denote the same JSON value: whatever the option set, the value written
@@ -77,8 +77,9 @@ Print Assumptions clean_encode_idem.
 (* roundtrip_equal, constructor level, partial: for every class set `ids` closed under nesting whose
    tables pass class_okw (closed_okw: distinct slot names, proved slot kinds, defaults of the expected
    shape, no reserved slot names, and a class __init__ that leaves the keyword arguments alone or is the
-   MarkingDefinition one -- `definition` wrapped into the registered marking class, in 2.0 with the
-   precision of `created` switched per instance: md_ok), every
+   MarkingDefinition one (`definition` wrapped into the registered marking class, in 2.0 with the
+   precision of `created` switched per instance: md_ok) or the 2.1 Indicator one (pattern_version defaults
+   to "2.1" for a stix pattern: ind_ok), every
    fuel and every plain input -- a 2.1 observable with its id given, as in serialized text --
    constructing from the object's own encoding returns the same object: same class, same members in
    the same order, same defaulted list, same custom flag. *)
@@ -107,13 +108,13 @@ Print Assumptions reserialize_identical_partial.
 
 (* roundtrip_equal at the level of stix2.parse(text) with no version named (detect_own_output included):
    the object's own encoding is detected as the same spec version, looked up as the same class and
-   constructed as the same object.  Table conditions: closed_ok on `ids`; registry_ok (every registered
+   constructed as the same object.  Table conditions: closed_okw on `ids`; registry_ok (every registered
    type name leads to a class of that version and type); parse_class_ok on the entry points `pids`
    (type / spec_version / id slots of the expected shape).  Input: plain JSON whose id is given when
    its type is a 2.1 observable type. *)
 Theorem roundtrip_equal_parse_partial :
   forall vr ev w pattern_ok selectors_ok, vr_year_pad vr = true ->
-  forall ids, closed_ok vr w ids = true -> registry_ok w = true ->
+  forall ids, closed_okw vr w ids = true -> registry_ok w = true ->
   forall pids, forallb (fun k => mem_ustr k ids) pids = true ->
     forallb (fun k => match find_class (wclasses w) k with Some c => parse_class_ok w c | None => false end) pids = true ->
   forall fuel allow interop d ci S dfl hc,
@@ -146,10 +147,29 @@ Theorem roundtrip_equal_bundle_partial :
 Proof. exact C01Bundle.bundle_roundtrip. Qed.
 Print Assumptions roundtrip_equal_bundle_partial.
 
+(* roundtrip_equal for ObservedData in its STIX 2.1 form (object_refs; no `objects` member), constructor level,
+   partial: the deprecated `objects` property (ObservableProperty) is not cleaned when it is not given, and
+   is not written back; with that slot set aside (observed_ok: table conditions on the other slots) the run
+   is covered like any other class.  ObservedData WITH an `objects` dictionary of observables -- the 2.0 form
+   and the deprecated 2.1 form -- is OUTSIDE the round-trip theorems. *)
+Theorem roundtrip_equal_observed_partial :
+  forall vr ev w pattern_ok selectors_ok, vr_year_pad vr = true ->
+  forall ids, closed_okw vr w ids = true ->
+  forall fuel kid allow interop kw vrefs o c,
+    find_class (wclasses w) kid = Some c -> observed_ok vr w ids c = true ->
+    plain_dict kw = true -> alookup OBJ kw = None ->
+    run vr ev w pattern_ok selectors_ok fuel (RConstruct kid allow interop kw vrefs) = Ok o ->
+    run vr ev w pattern_ok selectors_ok fuel (RConstruct kid allow interop (omem o) vrefs) = Ok o.
+Proof. exact C01Observed.observed_roundtrip. Qed.
+Print Assumptions roundtrip_equal_observed_partial.
+
 (* the generated tables of /repo: which classes the constructor-level theorems above cover (recomputed by
-   the kernel on every run; 118 of 123 at the current tables, plus the two Bundle classes (lib_bundle_ids) by
-   roundtrip_equal_bundle_partial -- not: ObservedData (observable containers, 2.0 and the deprecated 2.1 form),
-   2.1 Indicator (pattern_version rewrite)); lib_proved_ids (116: without the two MarkingDefinition classes)
+   the kernel on every run; 119 of 123 at the current tables, plus the two Bundle classes (lib_bundle_ids) by
+   roundtrip_equal_bundle_partial = 121, plus 2.1/ObservedData without `objects` (lib_observed_ids) by
+   roundtrip_equal_observed_partial -- OUTSIDE: 2.0/ObservedData, and 2.1/ObservedData given the deprecated
+   `objects` (ObservableProperty: a dictionary of parsed observables with references between them));
+   lib_proved_ids (116: without the two
+   MarkingDefinition classes and 2.1 Indicator)
    is the set of the parse-level theorem and of the C04 theorems *)
 Theorem lib_classes_covered :
   closed_okw variant_repaired lib lib_proved_idsw = true /\ closed_ok variant_repaired lib lib_proved_ids = true /\
@@ -157,10 +177,14 @@ Theorem lib_classes_covered :
   forallb (fun k => match find_class (wclasses lib) k with
                     | Some c => bundle_ok variant_repaired lib lib_proved_ids c
                     | None => false
-                    end) lib_bundle_ids = true.
+                    end) lib_bundle_ids = true /\
+  forallb (fun k => match find_class (wclasses lib) k with
+                    | Some c => observed_ok variant_repaired lib lib_proved_idsw c
+                    | None => false
+                    end) lib_observed_ids = true.
 Proof.
   exact (conj C01LibInstance.lib_proved_closedw (conj C01LibInstance.lib_proved_closed
-          (conj C01LibInstance.lib_proved_sub C01LibInstance.lib_bundle_okb))).
+          (conj C01LibInstance.lib_proved_sub (conj C01LibInstance.lib_bundle_okb C01LibInstance.lib_observed_okb)))).
 Qed.
 Print Assumptions lib_classes_covered.
 
@@ -168,10 +192,17 @@ Example lib_coverage_count :
   fst lib_coverage = (List.length lib_proved_idsw + List.length lib_bundle_ids)%nat /\ snd lib_coverage = List.length (wclasses lib).
 Proof. split; vm_compute; reflexivity. Qed.
 
-(* ... and which of them are parse entry points covered by roundtrip_equal_parse_partial (81 at the pinned tables) *)
+(* ... and which of them are parse entry points covered by roundtrip_equal_parse_partial: lib_parse_idsw (89 at the
+   current tables, incl. both MarkingDefinition classes and 2.1 Indicator); lib_parse_ids (86) is the set of the
+   parse-level C04 theorems.  OUTSIDE at parse level: Bundle (constructor level only), ObservedData. *)
 Theorem lib_parse_classes_covered :
   registry_ok lib = true /\
+  forallb (fun k => mem_ustr k lib_proved_idsw) lib_parse_idsw = true /\
+  forallb (fun k => match find_class (wclasses lib) k with Some c => parse_class_ok lib c | None => false end) lib_parse_idsw = true /\
   forallb (fun k => mem_ustr k lib_proved_ids) lib_parse_ids = true /\
   forallb (fun k => match find_class (wclasses lib) k with Some c => parse_class_ok lib c | None => false end) lib_parse_ids = true.
-Proof. exact (conj C01LibInstance.lib_registry_ok (conj C01LibInstance.lib_parse_sub C01LibInstance.lib_parse_ok)). Qed.
+Proof.
+  exact (conj C01LibInstance.lib_registry_ok (conj C01LibInstance.lib_parse_subw (conj C01LibInstance.lib_parse_okw
+          (conj C01LibInstance.lib_parse_sub C01LibInstance.lib_parse_ok)))).
+Qed.
 Print Assumptions lib_parse_classes_covered.
